@@ -689,7 +689,8 @@ class BasicLexer(AbstractBasicLexer):
         while line_ctr.char_pos < lex_state.text.end:
             res = self.match(lex_state.text, line_ctr.char_pos)
             if not res:
-                allowed = self.scanner.allowed_types - self.ignore_types
+                # All the terminals of this lexer, including keywords that were carved out of a regexp terminal (and so aren't in the scanner)
+                allowed = {t.name for t in self.terminals} - self.ignore_types
                 if not allowed:
                     allowed = {"<END-OF-FILE>"}
                 raise UnexpectedCharacters(lex_state.text.text, line_ctr.char_pos, line_ctr.line, line_ctr.column,
